@@ -1,1 +1,87 @@
-/-! Property theorems for C06 (stub: not built yet). -/
+import UsualProofs.C06.Refine
+import UsualProofs.C06.Url
+/-!
+# C06 — crit-bit tree, strpool and mdict behave as a sorted map of byte strings
+
+Property-level theorems only.  Model: `Usual/C06/CBTree.lean`, `Usual/C06/Pools.lean` (mirrors
+`usual/cbtree.c`, `strpool.c`, `mdict.c`).  Keys are byte strings not ending in a zero byte
+(`NoTrailingZero`, the property's precondition: the tree compares keys zero-padded).
+-/
+namespace UsualProps.C06
+open Usual.C06
+
+/-- **Every operation sequence equals the reference map.**  For every sequence of insert,
+delete and lookup on a crit-bit tree (starting from the empty tree) whose inserted keys do
+not end in a zero byte, each operation reports exactly what a reference finite map reports
+(insert refuses a key already present; delete reports and frees exactly the object stored
+under the named key; lookup finds exactly the stored keys), and afterwards the tree still
+represents the reference map. -/
+theorem cbtree_refines_map (ops : List Op) (hk : ∀ op, op ∈ ops → op.keyOk) :
+    (run none ops).2 = (specRun (fun _ => none) ops).2 ∧
+    absMap (run none ops).1 = (specRun (fun _ => none) ops).1 := by
+  have h := run_refines ops hk none trivial (by intro e he; simp [walk] at he)
+  have e : absMap none = fun _ => none := by funext k; simp [absMap, lookup]
+  rw [e] at h
+  exact ⟨h.1, h.2.1⟩
+
+-- non-vacuity: a concrete history with a prefix key, a refused duplicate and a delete
+example :
+    let ops := [Op.ins ⟨[0x61], 1⟩, .ins ⟨[0x61, 0x62], 2⟩, .ins ⟨[0x61], 3⟩, .get [0x61, 0x62],
+                .del [0x61], .get [0x61]]
+    (∀ op, op ∈ ops → op.keyOk) ∧
+    (run none ops).2 = [.flag true, .flag true, .flag false, .obj (some 2), .obj (some 1), .obj none] := by
+  refine ⟨?_, by decide +kernel⟩
+  intro op hop
+  simp only [List.mem_cons, List.not_mem_nil, or_false] at hop
+  rcases hop with rfl | rfl | rfl | rfl | rfl | rfl <;> simp [Op.keyOk, NoTrailingZero]
+
+/-- **Walk order.**  In every state reachable by such a sequence, the walk visits every stored
+object exactly once (`∈ walk ↔` stored in the map; strictly ascending ⇒ no repetition) in
+strictly ascending bytewise key order. -/
+theorem cbtree_walk_sorted (ops : List Op) (hk : ∀ op, op ∈ ops → op.keyOk) :
+    let root := (run none ops).1
+    (walk root).Pairwise (fun a b => keyLt a.key b.key = true) ∧
+    (∀ e, e ∈ walk root ↔ absMap root e.key = some e.obj) := by
+  have h := run_refines ops hk none trivial (by intro e he; simp [walk] at he)
+  exact walk_spec _ h.2.2.1
+
+example : walk (run none [Op.ins ⟨[0x62], 1⟩, .ins ⟨[0x61, 0xff], 2⟩, .ins ⟨[], 3⟩, .ins ⟨[0x61], 4⟩]).1
+    = [⟨[], 3⟩, ⟨[0x61], 4⟩, ⟨[0x61, 0xff], 2⟩, ⟨[0x62], 1⟩] := by decide +kernel
+
+/-- **Free callback exactly once.**  A successful delete hands exactly the removed object to
+the free callback and removes exactly that object from the walk; every other object stays,
+in order.  (`cbtree_destroy` hands `walk root` — every stored object once — to the callback
+by definition of `destroyLog`.) -/
+theorem cbtree_delete_frees_exactly (ops : List Op) (hk : ∀ op, op ∈ ops → op.keyOk) (k : Key) :
+    let root := (run none ops).1
+    ∀ e r, delete root k = some (e, r) →
+      e.key = k ∧ ∃ pre post, walk root = pre ++ e :: post ∧ walk r = pre ++ post := by
+  intro root e r hd
+  have h := run_refines ops hk none trivial (by intro e he; simp [walk] at he)
+  obtain ⟨a, _, _, _, _, pre, post, e1, e2⟩ := (delete_refines root h.2.2.1 k).2 e r hd
+  exact ⟨a, pre, post, e1, e2⟩
+
+/-- keys not ending in a zero byte are equal iff their zero-padded bit strings are equal -/
+theorem pad_eq_iff_eq' (a b : Key) (ha : NoTrailingZero a) (hb : NoTrailingZero b) :
+    (∀ i, getBit a i = getBit b i) ↔ a = b := pad_eq_iff_eq a b ha hb
+
+example : NoTrailingZero [0x61, 0x00, 0x62] ∧ ¬ NoTrailingZero [0x61, 0x00] := by
+  simp [NoTrailingZero]
+
+/-- **URL round trip (text level).**  Decoding the url-encoding of a list of key/value pairs
+returns exactly that list — for arbitrary bytes in keys and values, NULL and empty values —
+unless the list ends in the pair (empty key, NULL value), whose encoding is empty.  For a
+dict (walk order is sorted, the empty key first) the exception is exactly the dict
+`{"" ↦ NULL}` (known finding K1). -/
+theorem urldecode_urlencode (ps : List (Key × Val)) (h : LastOk ps) :
+    urldecodePairs ((urlencode ps).length + 1) (urlencode ps) = (ps, true) :=
+  urldecode_urlencode_text ps h
+
+/-- the exception is real: the unchanged code (and the model) lose the dict `{"" ↦ NULL}` -/
+theorem urldecode_urlencode_K1_counterexample :
+    urldecodePairs 5 (urlencode [([], none)]) = ([], true) := by decide
+
+example : LastOk [([], none), ([0x61, 0x20], some [0x26]), ([0x62], none)] := by
+  simp [LastOk]
+
+end UsualProps.C06
